@@ -66,6 +66,7 @@ func TestC14Timednetconn(t *testing.T) {
 	rec := evid.New(t, "C14", "generated sequences of Read/Write calls on timednetconn over a recording net.Conn: every Read must be immediately preceded by SetReadDeadline(now+readTimeout) and every Write by SetWriteDeadline(now+writeTimeout) armed afresh for that call (deadline within the wall-clock bracket of the call), a failing Set*Deadline is returned and the wrapped call skipped; non-trivial = sequence with both reads and writes; distinct by hash of the sequence")
 	errSet := errors.New("injected deadline error")
 	evid.Check(t, rec, evid.N(4000, 40000), func(t *rapid.T) {
+		drawNodeInit(t)
 		rt := time.Duration(rapid.IntRange(1, 5000).Draw(t, "rt_ms")) * time.Millisecond
 		wt := time.Duration(rapid.IntRange(1, 5000).Draw(t, "wt_ms")) * time.Millisecond
 		rc := &recConn{err: errSet, failSetAt: rapid.IntRange(0, 12).Draw(t, "fail_set_at")}
@@ -245,7 +246,7 @@ func runTCPClient(phases []phase) error {
 	n := &gomavlib.Node{Endpoints: []gomavlib.EndpointConf{gomavlib.EndpointTCPClient{Address: sim.Addr(port)}},
 		Dialect: ardupilotmega.Dialect, OutVersion: gomavlib.V2, OutSystemID: 9, HeartbeatDisable: true,
 		IdleTimeout: c14Idle, ReadTimeout: 500 * time.Millisecond}
-	if err := n.Initialize(); err != nil {
+	if err := initNode(&n); err != nil {
 		return fmt.Errorf("BROKEN: %v", err)
 	}
 	rec := sim.StartRecorder(n, sim.Pacing{Kind: "fast"}, nil)
@@ -384,7 +385,7 @@ func runUDPClient(phases []phase) error {
 	n := &gomavlib.Node{Endpoints: []gomavlib.EndpointConf{gomavlib.EndpointUDPClient{Address: sim.Addr(port)}},
 		Dialect: ardupilotmega.Dialect, OutVersion: gomavlib.V2, OutSystemID: 9, HeartbeatPeriod: 15 * time.Millisecond,
 		IdleTimeout: c14Idle}
-	if err := n.Initialize(); err != nil {
+	if err := initNode(&n); err != nil {
 		return fmt.Errorf("BROKEN: %v", err)
 	}
 	rec := sim.StartRecorder(n, sim.Pacing{Kind: "fast"}, nil)
@@ -508,7 +509,7 @@ func runSerial(phases []phase) error {
 	defer serialDevices.Delete(dev)
 	n := &gomavlib.Node{Endpoints: []gomavlib.EndpointConf{gomavlib.EndpointSerial{Device: dev, Baud: 57600}},
 		Dialect: ardupilotmega.Dialect, OutVersion: gomavlib.V2, OutSystemID: 9, HeartbeatDisable: true}
-	if err := n.Initialize(); err != nil {
+	if err := initNode(&n); err != nil {
 		return fmt.Errorf("BROKEN: %v", err)
 	}
 	rec := sim.StartRecorder(n, sim.Pacing{Kind: "fast"}, nil)
@@ -650,6 +651,7 @@ func TestC14Clients(t *testing.T) {
 	rec := evid.New(t, "C14", "client-type endpoints under generated fault sequences: TCP client against a harness server that is down for a while (failed connection attempts), accepts and then ends the connection by EOF, reset or silence (idle timeout); serial endpoint (hooked opener) whose open fails several times and whose reads fail with an injected error; oracles: strictly alternating open/close events (never two channels at once), every close event carries an error matching the injected cause, a fresh channel opens after every close but not earlier than the reconnect delay, connections seen by the peer == open events; non-trivial = >=2 consecutive failures including a failed connect; distinct by hash of the phases")
 	rec.Require("tcp-client", "serial", "udp-client", "failed-connect-then-failure", "idle-expiry", "reset", "consumer-stalled-across-close", "write-failure-before-read-fault", "fault-after-long-lived-channel", "read-fault-while-writer-blocked")
 	evid.Check(t, rec, evid.N(12, 60), func(t *rapid.T) {
+		drawNodeInit(t)
 		// several independent sub-scenarios run concurrently to use the waiting time
 		type sub struct {
 			kind   string
@@ -741,7 +743,7 @@ func runServer(udp bool, peers, first []string) error {
 	}
 	n := &gomavlib.Node{Endpoints: []gomavlib.EndpointConf{ep}, Dialect: ardupilotmega.Dialect, OutVersion: gomavlib.V2,
 		OutSystemID: 9, HeartbeatDisable: true, IdleTimeout: c14Idle}
-	if err := n.Initialize(); err != nil {
+	if err := initNode(&n); err != nil {
 		return fmt.Errorf("BROKEN: %v", err)
 	}
 	rec := sim.StartRecorder(n, sim.Pacing{Kind: "fast"}, nil)
@@ -877,6 +879,7 @@ func TestC14Servers(t *testing.T) {
 	rec := evid.New(t, "C14", "TCP and UDP server endpoints with 2..5 generated peers that leave, fall silent (idle expiry after ~IdleTimeout with a timeout error) or keep sending every IdleTimeout/4 for 5 x IdleTimeout (must stay open; discarded as inconclusive when the sender itself stalled); every peer gets its own channel whatever its first bytes are (a frame, junk, the tail of a frame) and accepting continues; non-trivial = a silent and a keepalive peer together; distinct by hash of the peer list")
 	rec.Require("tcp-server", "udp-server", "silent+keepalive", "udp-peer-whose-first-datagram-is-no-frame")
 	evid.Check(t, rec, evid.N(8, 30), func(t *rapid.T) {
+		drawNodeInit(t)
 		type sub struct {
 			udp   bool
 			peers []string
